@@ -97,6 +97,7 @@ func rulesC06(c *Ctx) {
 		}
 	}
 	c.c06ValidationBeforeMutation("R2")
+	c.c06DuplicateOutputsByKey("R2")
 	c.c06Handlers("R3")
 	c.ruleStateUpdatesKeyedOnly("R2")
 	_ = strings.TrimSpace
@@ -371,4 +372,50 @@ func (c *Ctx) ruleStateUpdatesKeyedOnly(rule string) {
 			}
 		}
 	}
+}
+
+// c06DuplicateOutputsByKey: R2 (clause). The signature table is keyed by b_ alone, so the insert of the output
+// signatures - which in the swap op comes after the inputs were marked spent - fails when two outputs of one
+// request share a B_. The duplicate-output test that runs before any write must therefore reject exactly that:
+// it compares outputs by B_, not by the whole struct (two outputs with one B_ and different amounts are
+// "different" structs).
+func (c *Ctx) c06DuplicateOutputsByKey(rule string) {
+	R := c.R
+	f := c.fn(rule, fnDupOutputs)
+	if f == nil {
+		return
+	}
+	fk := c.P.FuncKey(f)
+	o := c.P.OriginsOf(f)
+	el := "elem(P:" + f.Params[0].Name() + ")"
+	var keys []string
+	for _, b := range f.Blocks {
+		for _, in := range b.Instrs {
+			switch x := in.(type) {
+			case *ssa.MapUpdate:
+				keys = append(keys, o.Of(x.Key).String())
+			case *ssa.Lookup:
+				if _, isMap := x.X.Type().Underlying().(*types.Map); isMap {
+					keys = append(keys, o.Of(x.Index).String())
+				}
+			}
+		}
+	}
+	for _, e := range o.AllEdges() {
+		if ft := o.EdgeFact(e); ft != nil && ft.Kind == "cmp" && ft.Op.String() == "==" && (strings.Contains(ft.A.String(), el) || strings.Contains(ft.B.String(), el)) {
+			keys = append(keys, ft.A.String(), ft.B.String())
+		}
+	}
+	if len(keys) == 0 {
+		R.Undecided(rule, fk, "duplicate outputs are detected by B_", c.P.Pos(f.Pos()), "outputs are compared by the key of the signature table", "no set membership or comparison over the outputs found")
+		return
+	}
+	ok, why := true, ""
+	for _, k := range keys {
+		if !strings.HasSuffix(k, ".B_") {
+			ok = false
+			why = "outputs are compared by " + short(k, 80) + ": two outputs that share a B_ but differ elsewhere pass the test and the signature insert fails after the inputs were spent"
+		}
+	}
+	R.Check(rule, fk, "duplicate outputs are detected by B_", c.P.Pos(f.Pos()), ok, "the duplicate-output test compares the outputs by B_, the primary key of the signature table", why)
 }
